@@ -33,8 +33,10 @@ func c18paths(c *Ctx) {
 	baseMap := map[string]string{home: "~", cwd: "."}
 	prefixPool := []string{"/srv/data", "/srv/data/projects", "/srv", "/opt/build/agent-7/work", "/mnt/vol1/users/alice", "/var/lib/ci", "/srv/data/projects/deep/er", home + "/go/src", home + "/work", "/tmp/x y", "/ünï/cödé",
 		// directory names are literal text, also when they look like shell variables (one of them is set in this process)
-		"/srv/$Recycle.Bin", "/data/ws$BUILD_7781_X/src", "/opt/$STAGE/app", "/var/${HOME}/x"}
-	replPool := []string{"~d", "~p", "$SRV", "~w", "~alice", "CI:", "~deep", "~gosrc", "~work", "~tmp", "~u", "~bin", "~ws", "~stage", "~brace"}
+		"/srv/$Recycle.Bin", "/data/ws$BUILD_7781_X/src", "/opt/$STAGE/app", "/var/${HOME}/x",
+		// a mapping whose short form is empty (the prefix is dropped altogether)
+		"/build/strip-this-prefix", "/mnt/vol1/users/alice/empty"}
+	replPool := []string{"~d", "~p", "$SRV", "~w", "~alice", "CI:", "~deep", "~gosrc", "~work", "~tmp", "~u", "~bin", "~ws", "~stage", "~brace", "", ""}
 	_ = os.Setenv("STAGE", "prod")
 	_ = os.Setenv("BUILD_7781_X", "")
 	rxPool := []rxMap{{expr: `^/mnt/vol[0-9]+/`, repl: "~vol/"}, {expr: `^/net/[a-z]+/export/`, repl: "~net/"}, {expr: `^/Users/[^/]+/`, repl: "~/"},
@@ -50,7 +52,15 @@ func c18paths(c *Ctx) {
 		// the process may have changed its working directory since start-up: a relative result is relative to where the
 		// process is NOW
 		cwd := startCwd
-		if r.P(30) {
+		if r.P(8) {
+			// the working directory has been removed under the process (os.Getwd fails): hardening does not depend on it
+			if d, err := os.MkdirTemp("", "c18-gone-*"); err == nil && os.Chdir(d) == nil {
+				_ = os.Remove(d)
+				defer func() { _ = os.Chdir(startCwd) }()
+				cwd = "/no-working-directory-any-more"
+				c.R.Add("cases_with_the_working_directory_removed", 1)
+			}
+		} else if r.P(30) {
 			to := gen.Pick(r, []string{"/usr/lib", "/", filepath.Dir(startCwd), "/tmp", filepath.Dir(filepath.Dir(startCwd))})
 			if os.Chdir(to) == nil {
 				defer func() { _ = os.Chdir(startCwd) }()
